@@ -897,9 +897,27 @@ impl<'a> Ctx<'a> {
         } else if r < 80 {
             format!("{}", self.rng.usize(300))
         } else if r < 88 && self.k.hex {
-            format!("0x{:x}", self.rng.below(1 << 20))
+            if self.rng.chance(1, 4) {
+                // digit counts around the machine word sizes, any leading digit
+                let digits = *self.rng.pick(&[8usize, 15, 16, 16, 17, 32, 33, 64]);
+                let mut h = String::from("0x");
+                for d in 0..digits {
+                    let v = if d == 0 { 1 + self.rng.usize(15) } else if self.rng.chance(1, 3) { 15 } else { self.rng.usize(16) };
+                    let c = std::char::from_digit(v as u32, 16).unwrap();
+                    h.push(if self.rng.chance(1, 2) { c.to_ascii_uppercase() } else { c });
+                }
+                h
+            } else {
+                format!("0x{:x}", self.rng.below(1 << 20))
+            }
         } else if self.k.big_literals {
-            match self.rng.usize(6) {
+            match self.rng.usize(8) {
+                6 => format!("{}", [1u128 << 31, 1u128 << 32, (1u128 << 63) - 1, 1u128 << 63, (1u128 << 64) - 1, 1u128 << 64, u128::MAX][self.rng.usize(7)]),
+                7 => {
+                    // p + small
+                    let p: num_bigint_dig::BigInt = PRIMES[self.k.prime].parse().unwrap();
+                    (p + num_bigint_dig::BigInt::from(1 + self.rng.usize(300))).to_string()
+                }
                 0 => PRIMES[self.k.prime].to_string(),
                 1 => {
                     // p - 1
@@ -1205,7 +1223,17 @@ impl<'a> Ctx<'a> {
                     let mut args = Vec::new();
                     for _ in 0..self.rng.usize(3) {
                         if self.rng.chance(1, 3) {
-                            args.push(LogArg::Str(if self.k.rare_shapes && self.rng.chance(1, 2) { "wert é∑π ✓".into() } else { "value".into() }));
+                            let text = if !self.k.rare_shapes || self.rng.chance(1, 2) {
+                                "value".to_string()
+                            } else if self.rng.chance(1, 2) {
+                                "wert é∑π ✓".to_string()
+                            } else {
+                                // long, with multi-byte characters at every offset class
+                                let pad = self.rng.usize(6);
+                                let n = 40 + self.rng.usize(80);
+                                format!("{}{}", "x".repeat(pad), ["é", "∑", "𝔽", "aé∑"][self.rng.usize(4)].repeat(n))
+                            };
+                            args.push(LogArg::Str(text));
                         } else {
                             args.push(LogArg::E(self.expr(1, if self.in_function { 0 } else { 1 })));
                         }
@@ -1465,7 +1493,38 @@ impl<'a> Ctx<'a> {
             init_op: "=",
         };
         let widths = ["8", "32", "252", "253", "254", "255", "64"];
-        match self.rng.usize(4) {
+        match self.rng.usize(5) {
+            4 => {
+                // range checks in loops: one loop variable declared once and reused by every loop,
+                // so the checked value `v[i]` is spelled alike in each loop and differs only in
+                // the SSA version of `i`
+                let groups = 1 + self.rng.usize(4);
+                let i = format!("ri{id}");
+                let mut src = format!("var {i} ;");
+                for g in 0..groups {
+                    let (v, nb, lt) = (format!("rcv{id}_{g}"), format!("rcn{id}_{g}"), format!("rcl{id}_{g}"));
+                    let w = *self.rng.pick(&["8", "16", "64"]);
+                    let mut ta = Vec::new();
+                    expr_tokens(&a, &mut ta);
+                    let mut tb = Vec::new();
+                    expr_tokens(&b, &mut tb);
+                    src.push_str(&format!(" signal {v} [ 2 ] ; component {nb} [ 2 ] ; component {lt} [ 2 ] ;"));
+                    src.push_str(&format!(" for ( {i} = 0 ; {i} < 2 ; {i} ++ ) {{ {v} [ {i} ] <== {} + {i} ; }}", ta.join(" ")));
+                    if self.rng.chance(3, 4) {
+                        src.push_str(&format!(" for ( {i} = 0 ; {i} < 2 ; {i} ++ ) {{ {nb} [ {i} ] = Num2Bits ( {w} ) ; {nb} [ {i} ] . in <== {v} [ {i} ] ; }}"));
+                    }
+                    src.push_str(&format!(
+                        " for ( {i} = 0 ; {i} < 2 ; {i} ++ ) {{ {lt} [ {i} ] = LessThan ( {w} ) ; {lt} [ {i} ] . in [ 0 ] <== {v} [ {i} ] ; {lt} [ {i} ] . in [ 1 ] <== {} ; }}",
+                        tb.join(" ")
+                    ));
+                }
+                for r in ["LessThan", "Num2Bits"] {
+                    if !self.refs.iter().any(|x| x == r) {
+                        self.refs.push(r.to_string());
+                    }
+                }
+                return Some(Stmt::Raw(src.split_whitespace().map(|t| t.to_string()).collect()));
+            }
             0 => {
                 // q <-- a / b with 0..2 IsZero guards on b
                 let q = format!("quot{id}");
@@ -2051,6 +2110,7 @@ pub struct Project {
 #[derive(Clone, Debug)]
 pub struct ProjectShape {
     pub max_files: usize,
+    pub min_defs: usize,
     pub max_defs: usize,
     pub with_main: bool,
     pub pragma_always: bool,
@@ -2059,7 +2119,7 @@ pub struct ProjectShape {
 }
 
 pub fn gen_project(rng: &mut Rng, k: &Knobs, shape: &ProjectShape) -> Project {
-    let n_defs = 1 + rng.usize(shape.max_defs);
+    let n_defs = shape.min_defs.max(1) + rng.usize(shape.max_defs + 1 - shape.min_defs.max(1));
     let n_files = 1 + rng.usize(shape.max_files.min(n_defs));
     let mut reg = Registry::default();
     let mut defs: Vec<Def> = Vec::new();
@@ -2075,10 +2135,8 @@ pub fn gen_project(rng: &mut Rng, k: &Knobs, shape: &ProjectShape) -> Project {
         let is_fn = rng.chance(1, 3);
         if is_fn {
             let cands: Vec<&str> = FUNCTION_NAMES.iter().copied().filter(|n| !used_names.iter().any(|u| u == n)).collect();
-            if cands.is_empty() {
-                continue;
-            }
-            let base_name = rng.pick(&cands).to_string();
+            // big projects run out of pool names
+            let base_name = if cands.is_empty() { format!("fn_{}", defs.len()) } else { rng.pick(&cands).to_string() };
             let name = format!("{base_name}{}", shape.name_suffix);
             used_names.push(base_name);
             let d = gen_function(rng, k, &reg, &name);
@@ -2091,10 +2149,7 @@ pub fn gen_project(rng: &mut Rng, k: &Knobs, shape: &ProjectShape) -> Project {
                 pool.extend(CIRCOMLIB_NAMES);
             }
             let cands: Vec<&str> = pool.into_iter().filter(|n| !used_names.iter().any(|u| u == n)).collect();
-            if cands.is_empty() {
-                continue;
-            }
-            let base_name = rng.pick(&cands).to_string();
+            let base_name = if cands.is_empty() { format!("Tpl{}", defs.len()) } else { rng.pick(&cands).to_string() };
             let name = format!("{base_name}{}", shape.name_suffix);
             used_names.push(base_name);
             let d = gen_template(rng, k, &reg, &name);
